@@ -42,7 +42,7 @@ def verify_target(target, timeout_ms=20000, verbose=False, repo=None):
         res.undecided = f"no contract for {target}"
         return res
     I = Interp(L, cs)
-    I.spec_builtins = {"fold", "implies", "old"}
+    I.spec_builtins = {"fold", "implies", "old", "pre"}
     ex = Explorer()
     try:
         paths = ex.run(lambda p: cs.verify_path(I, c, p))
@@ -90,7 +90,7 @@ def main(argv=None):
             rc = max(rc, 2)
         for name, s in summarize(r).items():
             st = "proved" if s["proved"] == s["n"] else "REFUTED" if s["refuted"] else "unknown"
-            print(f"   {st:8s} {name}  x{s['n']}  {s['secs']:.2f}s   {s['clause'] or ''}")
+            print(f"   {st:8s} {name}  x{s['n']} (proved {s['proved']}, refuted {s['refuted']}, unknown {s['unknown']})  {s['secs']:.2f}s   {s['clause'] or ''}")
             if st != "proved":
                 rc = max(rc, 1)
                 if a.v:
